@@ -3,6 +3,7 @@ package circl
 
 import (
 	"crypto/cipher"
+	"errors"
 	"io"
 
 	bls12381 "github.com/cloudflare/circl/ecc/bls12381"
@@ -18,7 +19,14 @@ type G1Elt struct{ inner bls12381.G1 }
 func (p *G1Elt) MarshalBinary() (data []byte, err error) { return p.inner.BytesCompressed(), nil }
 
 // UnmarshalBinary populates the point from a compressed point representation.
-func (p *G1Elt) UnmarshalBinary(data []byte) error { return p.inner.SetBytes(data) }
+func (p *G1Elt) UnmarshalBinary(data []byte) error {
+	// circl also understands the uncompressed form and slices the input to that
+	// length without checking it: only hand it well-sized compressed encodings.
+	if len(data) != bls12381.G1SizeCompressed || data[0]&0x80 == 0 {
+		return errors.New("bls12-381: invalid compressed G1 encoding")
+	}
+	return p.inner.SetBytes(data)
+}
 
 func (p *G1Elt) String() string { return p.inner.String() }
 
